@@ -1,7 +1,7 @@
 SPECIFICATION MCSpec
-CONSTANTS Cids <- MCCids
+CONSTANTS Cids <- MCCids2
           Devs = {}
-          MaxCalls = 2
+          MaxCalls = 1
           MaxActive = 1
           MaxDl = 2
 INVARIANTS TypeOK RejectedNeverTouched OnlyRequested GetBlockExact SelfCertified CachedBeforeHandOff LocalNotFetched
